@@ -19,6 +19,9 @@ using namespace coloquinte;
 #ifndef SMAX
 #define SMAX QMAX
 #endif
+#ifndef DMIN
+#define DMIN 0
+#endif
 #ifndef PLIM
 #define PLIM 100000000
 #endif
@@ -43,14 +46,18 @@ extern "C" void harness() {
 #ifdef FAMILY_B
     v.push_back(__verif_choice(PRANGE)); d.push_back(__verif_nondet_i64(0, QLIM));
 #else
-    v.push_back(__verif_nondet_i64(-PLIM, PLIM)); d.push_back(__verif_choice(QMAX + 1));
+    v.push_back(__verif_nondet_i64(-PLIM, PLIM)); d.push_back(DMIN + __verif_choice(QMAX + 1 - DMIN));
 #endif
     td += d[j];
   }
 #ifdef SORTEDSINKS
   for (int j = 1; j < nk; ++j) __verif_assume(v[j - 1] <= v[j]);   // stated bound of this harness: sinks given in non-decreasing order
 #endif
+#ifdef NOBALANCE
+  int balance = 0;
+#else
   int balance = __verif_choice(2);
+#endif
   Transportation1d pb(u, v, s, d);
   if (balance) {
     pb.balanceDemand();
